@@ -11,7 +11,8 @@ ENGINE = {'name': 'msmall',
  'timeout': 900,
  'serves': ['C04', 'C06', 'C14'],
  'rule': 'per matcher (ssh, xmpp, postgres, proxy_protocol, socks4 x8 configurations, socks5 x5, regexp x5, tls record gate, http '
-         'request-line gate, not x5 compositions) streams come from a per-protocol generator of abstract first messages over the full field '
+         'request-line gate, not x5 compositions built directly + x2 provisioned from JSON through module loading with 2-3 negated sets, '
+         'MatcherSets.AnyMatch x7 ORs of 0-3 sets of real matchers in both orders; not over 2-3 remote_ip sets from JSON) streams come from a per-protocol generator of abstract first messages over the full field '
          'ranges: well-formed messages with trailing data, one-field corruptions that keep the length fields consistent, truncated and '
          'length-inconsistent messages, random bytes; every prefix of every stream is evaluated in matching mode (twice on one connection, once '
          'on a fresh one, socket reads counted, connection drained and compared, allocation measured); clock: 13 windows x 7 fixed-offset zones x boundary '
@@ -29,7 +30,7 @@ ENGINE = {'name': 'msmall',
  'modelled': ['modules/l4ssh, l4xmpp, l4postgres (Match, ReadUint32, ReadString), l4proxyprotocol/matcher.go, l4socks/socks4_matcher.go and '
               'socks5_matcher.go (Match and the defaults of Provision), l4regexp (count gate and default count), l4clock (normalisation in '
               'Provision, Match on a fixed-offset zone), layer4/matchers.go (MatchRemoteIP/MatchLocalIP after address parsing, MatcherSet.Match, '
-              'MatchNot.Match), l4http isHttp and the need-more branch, l4tls record header and exact read',
+              'MatcherSets.AnyMatch, MatchNot.Match; MatchNot.Provision is exercised from JSON and compared with the model over the configured sets), l4http isHttp and the need-more branch, l4tls record header and exact read',
               'not modelled: the regexp engine, net/http request parsing, the ClientHello parser and TLS sub-matchers (other check), IANA zone '
               'lookup in l4clock, netip text parsing, Caddyfile unmarshalling (C15)'],
  'assumptions': ['regexp: the compiled pattern is a total function of the gated bytes (Section variable)',
